@@ -7,6 +7,8 @@ import (
 	"regexp"
 	"sort"
 	"strings"
+	"go/constant"
+	"go/types"
 )
 
 func init() {
@@ -19,6 +21,8 @@ func init() {
 		Trusted: []string{"go/types", "go/ssa"},
 		Run: func(c *Ctx) {
 			runC18(c)
+			runC18VarKinds(c)
+			base(c, "DECLARED", "STATE", "ALIAS", "TEXT")
 			importRules(c, "C02", runC02Loop, "C18-LOOP", "every walker evaluates every rule item of a field: its rule loop leaves only through its header (rule C02-LOOP) — a walker that stops early at some item disagrees with its siblings on the rules after it", 4, nil)
 		},
 	})
@@ -29,7 +33,7 @@ func init() {
 			"Not covered: the (ambiguous) treatment of top-level slices as outermost.",
 		Assume:  []string{"Go map lookup semantics"},
 		Trusted: []string{"go/types", "go/ssa"},
-		Run:     func(c *Ctx) { runC16(c); sharedDeclaredRules(c) },
+		Run:     func(c *Ctx) { runC16(c); runC16More(c); sharedDeclaredRules(c); base(c, "STATE", "LOOP", "TEXT") },
 	})
 }
 
@@ -172,6 +176,22 @@ func runC18(c *Ctx) {
 				decBad = append(decBad, "a URL parameter value reaches the rule functions without query percent-decoding: "+shorten(rc.v, 300))
 			}
 		}
+		// each parameter is judged by its own text: neither the key nor the value handed on may be
+		// carried over from the previous parameter (a loop-carried variable that is not reset)
+		var carried []string
+		for _, rc := range ruleCalls(wl) {
+			if !strings.Contains(fnName(rc.we.Run.Fn), "VUrl") {
+				continue
+			}
+			for what, expr := range map[string]string{"value": rc.v, "key": rc.fld} {
+				for _, m := range regexp.MustCompile(`φ:[^:]*:\d+:t\d+:(\w+)`).FindAllStringSubmatch(expr, -1) {
+					if m[1] != "rangeindex" {
+						carried = append(carried, "the "+what+" judged for a parameter can be the one left over from the previous parameter (loop-carried variable "+m[1]+"): a parameter written without '=' inherits its neighbour's value")
+					}
+				}
+			}
+		}
+		c.Check(len(carried) == 0, "C18-URL", "(*valid.VUrl).validate", "own-text", urlPos, "key and value are cut from the parameter's own text", uniqJoin(carried, 2))
 		c.Check(len(decBad) == 0, "C18-URL", "(*valid.VUrl).validate", "query-decoding", urlPos, "values are query-decoded (url.QueryUnescape)", uniqJoin(decBad, 1))
 		c.Check(len(lossy) == 0, "C18-URL", "(*valid.VUrl).validate", "first-equals", urlPos, "value keeps everything after the first '='", uniqJoin(lossy, 1))
 		c.Check(len(decodeFirst) == 0, "C18-URL", "(*valid.VUrl).validate", "decode-after-split", urlPos, "decoding does not precede splitting", uniqJoin(decodeFirst, 1))
@@ -304,4 +324,69 @@ func runC16(c *Ctx) {
 		}
 	}
 	runC16Struct(c, wl)
+}
+
+// runC18VarKinds: the variable entry point admits a scalar by asking ReflectKindIsNum(kind, true).
+// The helper is interpreted for every reflect kind x {no flag, false, true} (a finite domain,
+// enumerated completely): it must answer true exactly for Int..Int64, Uint..Uint64 and — only
+// with the flag — Float32 and Float64. A kind dropped here is refused by Var ("src no support")
+// while the struct, map and URL walkers still judge it.
+func runC18VarKinds(c *Ctx) {
+	p := c.P
+	c.Rule("C18-VARKINDS", "ReflectKindIsNum(kind[, canFloat]) ⇔ kind ∈ Int..Int64 ∪ Uint..Uint64 ∪ (canFloat ? {Float32, Float64} : ∅), for every kind and flag", 1)
+	fn := p.Func("valid", "ReflectKindIsNum")
+	if fn == nil || len(fn.Params) != 2 {
+		c.Unk("C18-VARKINDS", "valid.ReflectKindIsNum", "table", token.NoPos, "helper not found")
+		return
+	}
+	c.Funcs[fnName(fn)] = true
+	var bad, unk []string
+	n := 0
+	for k := 0; k <= int(reflect.UnsafePointer); k++ {
+		for flag := 0; flag < 3; flag++ { // 0 absent, 1 false, 2 true
+			w := NewWalkEnv(p)
+			elemT := fn.Params[1].Type().(*types.Slice).Elem()
+			arr := &Cell{ID: 2000, T: types.NewArray(elemT, 1)}
+			hi := 0
+			if flag > 0 {
+				arr.Elems = append(arr.Elems, &Cell{ID: 2001, T: elemT, V: cstBool(flag == 2)})
+				hi = 1
+			}
+			args := []AVal{Cst{V: constant.MakeInt64(int64(k)), T: fn.Params[0].Type()}, Slc{Arr: arr, Lo: 0, Hi: hi}}
+			trs := w.In.Explore(fn, args, 200)
+			want := false
+			rk := reflect.Kind(k)
+			switch {
+			case rk >= reflect.Int && rk <= reflect.Int64, rk >= reflect.Uint && rk <= reflect.Uint64:
+				want = true
+			case rk == reflect.Float32 || rk == reflect.Float64:
+				want = flag == 2
+			}
+			for _, t := range trs {
+				if t.Converged {
+					continue
+				}
+				n++
+				c.Sites++
+				if t.Cut != "" || t.Panic != "" {
+					unk = append(unk, "not decided for kind "+kindNames[k]+": "+t.Cut+t.Panic)
+					continue
+				}
+				got, ok := isCstBool(t.Ret)
+				if !ok {
+					unk = append(unk, "result not a constant for kind "+kindNames[k]+": "+keyOf(t.Ret))
+					continue
+				}
+				if got != want {
+					bad = append(bad, fmt.Sprintf("kind %s (flag %s): answers %v, want %v", kindNames[k], []string{"absent", "false", "true"}[flag], got, want))
+				}
+			}
+		}
+	}
+	switch {
+	case len(unk) > 0:
+		c.Unk("C18-VARKINDS", fnName(fn), "table", fn.Pos(), uniqJoin(unk, 3))
+	default:
+		c.Check(len(bad) == 0 && n >= 81, "C18-VARKINDS", fnName(fn), "table", fn.Pos(), fmt.Sprintf("%d (kind, flag) cases agree", n), uniqJoin(append(bad, fmt.Sprintf("%d cases", n)), 4))
+	}
 }
